@@ -15,7 +15,7 @@
    complete document and option set HtmlDom.HtmlEq(Build(in), Build(MachineOut(in)))  (D => A).
    Constructs on which the *real code* is known to violate the property (known/C03.txt) are
    excluded by the guards marked X1, X5..X7; everything else is enumerated.  The guards X1 (most of it),
-   X3 and X4 were lifted after the fixes c371690 675df8b 0c8c9ee c6de520 e347d35 8649a6a; the behaviour
+   X3 and X4 were lifted after the fixes c371690 675df8b 0c8c9ee c6de520 e347d35 8649a6a 13c309a 27d359f 6cae351; the behaviour
    before each fix is kept as a switch in Bugs: the negative configurations HtmlMachine_neg_*.cfg set one
    switch each and TLC must then report a violation of DesignRefines (checked by tools/props/c03.py). *)
 EXTENDS HtmlDom, Json
@@ -89,28 +89,12 @@ WsEdgeL(x) == x # <<>> /\ IsWs(x[1])
 WsEdgeR(x) == x # <<>> /\ IsWs(x[Len(x)])
 
 (* ---- known-defect constructs excluded from generation (narrow, syntactic) ---- *)
-(* X1: </optgroup> is omitted by look-ahead before anything that is not an option, and </colgroup> is always
-       dropped: a following script-supporting element moves inside.  (Lifted by e347d35 / c6de520 / 0c8c9ee
-       for the unconditionally omitted end tags, for content after </rt> and for a comment after </optgroup>.) *)
-CommentSinceSolid ==
-  LET idx == {i \in 1..Len(toks) : ~(toks[i].k = "M" \/ (toks[i].k = "T" /\ AllWs(toks[i].x)))}
-      j == IF idx = {} THEN 0 ELSE Max(idx)
-  IN \E k \in (j + 1)..Len(toks) : toks[k].k = "M"
-X1(t) == \/ LastSolid.k = "E" /\ LastSolid.t = "optgroup" /\ t \in ScriptSupporting
-         \* the look-ahead of e347d35 steps over white space only: a comment before the script hides it
-         \/ LastSolid.k = "E" /\ LastSolid.t \in AlwaysOmit /\ t \in ScriptSupporting /\ CommentSinceSolid
-         \/ LastSolid.k = "E" /\ LastSolid.t = "colgroup" /\ t = "template"     \* </colgroup> is always dropped
-(* X3 (</p> before a custom element end tag) and the noscript part of X4 were lifted by 8649a6a and c371690.
-   X4 (reduced after 675df8b): the omitSpace flag set *inside* a template (by a trailing blank or a block end tag
-   of its content) still leaks out of the display:none template and eats the leading blank of the text that
-   follows </template>.  Excluded: leading white space after the end tag of a non-empty template. *)
-AfterTemplate ==     \* ... or of a non-empty noscript (display:none when scripting is enabled: same leak)
-  /\ prev.k = "E" /\ prev.t \in {"template", "noscript"}
-  /\ LET j == Max({i \in 1..Len(toks) : toks[i].k = "E" /\ toks[i].t = prev.t})
-     IN ~(j >= 2 /\ toks[j - 1].k = "S" /\ toks[j - 1].t = prev.t)
-X4Open(t) == AfterTemplate /\ t \notin (BlockEls \cup AtomEls)
-X4Close(t) == AfterTemplate /\ t \notin BlockEls
-X4Text(x) == AfterTemplate /\ WsEdgeL(x)
+(* X1: </colgroup> is always dropped: a following template moves inside.  (The other parts of X1 - script/template
+       after an omitted end tag, also behind a comment, after </optgroup>; content after </rt>; a comment after
+       </optgroup> - were lifted by e347d35 13c309a 27d359f c6de520 0c8c9ee.) *)
+X1(t) == LastSolid.k = "E" /\ LastSolid.t = "colgroup" /\ t = "template"
+(* X3 (</p> before a custom element end tag) and X4 (white space next to noscript, after </template>, and the
+   omitSpace state leaking out of template/noscript) were lifted by 8649a6a c371690 675df8b 6cae351 *)
 (* X5: attribute-less colgroup that is empty or follows another colgroup *)
 X5Start(h) == ~h /\ LastSolid.k = "E" /\ LastSolid.t = "colgroup"
 X5End == LastTok.k = "S" /\ LastTok.t = "colgroup" /\ ~LastTok.h     \* a col must come first
@@ -134,7 +118,7 @@ Open(t, h) ==
   /\ t \in Kids(stack)
   /\ nodes + Cost(t) <= MaxNodes
   /\ (t \in VoidEls \/ Len(stack) < MaxDepth + (IF DocMode THEN 2 ELSE 0))
-  /\ ~X1(t) /\ ~X4Open(t) /\ ~X6(t) /\ (X5End => t = "col")
+  /\ ~X1(t) /\ ~X6(t) /\ (X5End => t = "col")
   /\ (t = "colgroup" => ~X5Start(h))
   /\ (t = "title" => ~HasTitle)
   /\ (t = "head" => LastTok.k = "S" /\ LastTok.t = "html")            \* head first, body after </head>
@@ -147,7 +131,6 @@ Open(t, h) ==
 Close ==
   /\ stack # <<>>
   /\ LET t == Top(stack) IN
-     /\ ~X4Close(t)
      /\ (t = "colgroup" => ~X5End)
      /\ (t \in {"script", "style"} => ~X7)
      /\ (t \in {"dl", "ruby", "html", "head", "title"}
@@ -166,7 +149,7 @@ Text(x) ==
        ELSE /\ (TextOK(stack) \/ AllWs(x))
             /\ Top(stack) \notin {"html", "head"} \/ AllWs(x)
   /\ (DocMode => stack # <<>>)
-  /\ ~X4Text(x) /\ ~X5End
+  /\ ~X5End
   /\ (Top(stack) = "option" => ~AllWs(x))
   /\ (Top(stack) = "pre" /\ LastTok.k = "S" => x[1] # 10)               \* a leading newline of pre is dropped by the parser
   /\ toks' = Append(toks, T(x))
@@ -222,6 +205,9 @@ Collapse(x) ==
   FoldLeft(LAMBDA a, c : IF IsWs(c) THEN (IF a # <<>> /\ a[Len(a)] = 32 THEN a ELSE Append(a, 32)) ELSE Append(a, c),
            <<>>, x)
 
+(* omitSpace is saved at <template>/<noscript> and restored at the end tag (6cae351); the two older template
+   behaviours are the switches "hidden-leak" (no restore) and "template-os" (675df8b, which predates the restore) *)
+Restore == "hidden-leak" \notin Bugs /\ "template-os" \notin Bugs
 MachineOut(in, o) ==
   LET n == Len(in)
       IsText(j) == j <= n /\ in[j].k = "T"
@@ -255,13 +241,15 @@ MachineOut(in, o) ==
         IF j > n THEN FALSE
         ELSE LET t == in[j] IN
           CASE t.k = "T" -> IF AllWs(t.x) THEN SL[j + 1] ELSE FALSE
+            [] t.k = "M" -> IF "script-la-no-comment" \in Bugs THEN FALSE ELSE SL[j + 1]                  \* 13c309a
             [] t.k = "S" -> t.t \in {"script", "template"}
             [] OTHER     -> FALSE
       (* look-ahead for </optgroup> *)
       OL[j \in 1..(n + 1)] ==
         IF j > n THEN TRUE
         ELSE IF in[j].k = "T" \/ (in[j].k = "M" /\ "optgroup-comment" \notin Bugs) THEN OL[j + 1]       \* 0c8c9ee
-        ELSE in[j].t # "option"
+        ELSE in[j].t # "option" /\ ("optgroup-before-script" \in Bugs                                    \* 27d359f
+                                     \/ ~(in[j].k = "S" /\ in[j].t \in {"script", "template"}))
       Step(s, i) ==
         LET t == in[i] IN
         IF s.drop > 0 THEN [s EXCEPT !.drop = s.drop - 1]
@@ -279,7 +267,8 @@ MachineOut(in, o) ==
                        ELSE [s EXCEPT !.os = FALSE, !.out = Append(s.out, T(d1))]
         ELSE IF t.k = "S" THEN
           LET emptyRaw == ~t.h /\ t.t \in {"script", "style"} /\ i < n /\ in[i + 1].k = "E"
-              s1 == [s EXCEPT !.skip = FALSE, !.raw = t.t \in MRaw, !.pre = IF t.t = "pre" THEN TRUE ELSE s.pre]
+              s1 == [s EXCEPT !.skip = FALSE, !.raw = t.t \in MRaw, !.pre = IF t.t = "pre" THEN TRUE ELSE s.pre,
+                              !.hs = IF t.t \in {"template", "noscript"} /\ Restore THEN Append(s.hs, s.os) ELSE s.hs]   \* 6cae351
           IN IF emptyRaw THEN [s1 EXCEPT !.drop = 1, !.raw = FALSE]
              ELSE IF ~t.h /\ ((~o.kdoc /\ t.t \in {"html", "head", "body"}) \/ t.t = "colgroup") THEN s1
              ELSE LET os1 == IF o.kws \/ t.t \in MObject THEN FALSE ELSE IF IsMBlock(t.t) THEN TRUE ELSE s1.os
@@ -287,8 +276,13 @@ MachineOut(in, o) ==
                   IN [s1 EXCEPT !.os = os2, !.out = Append(s1.out, t),
                                 !.skip = t.t \in {"select", "optgroup"} /\ IsText(i + 1)]
         ELSE \* end tag
-          LET s1 == [s EXCEPT !.skip = FALSE, !.raw = FALSE, !.pre = IF t.t = "pre" THEN FALSE ELSE s.pre,
-                              !.os = IF t.t = "template" /\ "template-os" \in Bugs THEN TRUE ELSE s.os]   \* 675df8b
+          LET pop == t.t \in {"template", "noscript"} /\ Restore /\ s.hs # <<>>
+              saved == IF pop THEN s.hs[Len(s.hs)] ELSE FALSE
+              s1 == [s EXCEPT !.skip = FALSE, !.raw = FALSE, !.pre = IF t.t = "pre" THEN FALSE ELSE s.pre,
+                              !.hs = IF pop THEN SubSeq(s.hs, 1, Len(s.hs) - 1) ELSE s.hs,
+                              !.os = IF t.t = "template" /\ "template-os" \in Bugs THEN TRUE                   \* 675df8b
+                                     ELSE IF pop THEN (IF t.t = "template" THEN saved ELSE s.os /\ saved)      \* 6cae351
+                                     ELSE s.os]
           IN IF (~o.kdoc /\ t.t \in {"html", "head", "body"}) \/ t.t = "colgroup" THEN s1
              ELSE LET listed == t.t \in AlwaysOmit \/ ("rt-always" \in Bugs /\ t.t \in {"rt", "rp"})
                       omit == ~o.ket /\ (\/ listed /\ ("omit-before-script" \in Bugs \/ ~SL[i + 1])
@@ -300,7 +294,7 @@ MachineOut(in, o) ==
                                                    ELSE IF IsMBlock(t.t) THEN TRUE ELSE s1.os,
                                             !.out = Append(s1.out, t)]
                   IN [s2 EXCEPT !.skip = t.t \in {"option", "optgroup"} /\ IsText(i + 1)]
-  IN FoldLeft(Step, [os |-> TRUE, pre |-> FALSE, raw |-> FALSE, skip |-> FALSE, drop |-> 0, out |-> <<>>],
+  IN FoldLeft(Step, [os |-> TRUE, pre |-> FALSE, raw |-> FALSE, skip |-> FALSE, drop |-> 0, hs |-> <<>>, out |-> <<>>],
               [i \in 1..n |-> i]).out
 
 ----------------------------------------------------------------------------
@@ -508,5 +502,8 @@ BugRt == {"rt-always"}
 BugScript == {"omit-before-script"}
 BugPUnknown == {"p-unknown"}
 BugOptgroup == {"optgroup-comment"}
+BugScriptComment == {"script-la-no-comment"}
+BugOptgroupScript == {"optgroup-before-script"}
+BugHiddenLeak == {"hidden-leak"}
 VocabDoc == {"html", "head", "body", "title", "meta", "style", "script", "div", "p", "span", "ul", "li", "a", "img"}
 =============================================================================
